@@ -423,8 +423,14 @@ func runC02(c *Ctx) {
 				m.act("%s", describeEmit(info, call.Args[0], m, args))
 				return true
 			}
-			m.act("%s", name)
 			fd := decls[fn]
+			if !c02ActionVocabulary[name] && fd != nil && fd.Body != nil && c02TouchesControl(info, fd, ptr, trackedFields, decls) {
+				// a helper (not one of the parser's named actions) that touches the control fields or calls
+				// actions: interpret it in place, so that extracting such code into a method changes nothing
+				m.callDecl(fd, append([]val{}, args...))
+				return true
+			}
+			m.act("%s", name)
 			if fd == nil || fd.Body == nil {
 				return true
 			}
@@ -925,4 +931,31 @@ func stripRecv(e ast.Expr) ast.Expr {
 		return &ast.CallExpr{Fun: t.Fun, Args: args}
 	}
 	return e
+}
+
+// c02ActionVocabulary: the parser actions of the reference (Williams' names as spelled in the code) and the
+// exit handlers. Methods outside this set are helpers and are interpreted transparently.
+var c02ActionVocabulary = map[string]bool{"print": true, "execute": true, "clear": true, "collect": true, "param": true,
+	"escapeDispatch": true, "csiDispatch": true, "hook": true, "put": true, "unhook": true, "oscStart": true, "oscPut": true,
+	"oscEnd": true, "apcUnhook": true, "emit": true}
+
+// c02TouchesControl: does the method body assign/read-call a tracked field or call another method of the parser?
+func c02TouchesControl(info *types.Info, fd *ast.FuncDecl, ptr types.Type, tracked map[string]bool, decls map[*types.Func]*ast.FuncDecl) bool {
+	touches := false
+	ast.Inspect(fd.Body, func(n ast.Node) bool {
+		switch t := n.(type) {
+		case *ast.SelectorExpr:
+			if sl, ok := info.Selections[t]; ok && sl.Kind() == types.FieldVal && tracked[t.Sel.Name] && types.Identical(info.TypeOf(t.X), ptr) {
+				touches = true
+			}
+		case *ast.CallExpr:
+			if fn := calleeOf(info, t); fn != nil {
+				if sig, _ := fn.Type().(*types.Signature); sig != nil && sig.Recv() != nil && types.Identical(sig.Recv().Type(), ptr) && fn.Name() != "emit" {
+					touches = true
+				}
+			}
+		}
+		return true
+	})
+	return touches
 }
